@@ -55,6 +55,8 @@ type c11Env struct {
 	arm     []string        // per caller: the hold point it is armed for ("" = none)
 	holdCh  []chan struct{} // per caller: released by unhold
 	held    atomic.Int32    // callers parked at a hold point (they own pe.lock)
+	bgArm   bool            // the background flusher is armed for the hold point "fremoved"
+	bgCh    chan struct{}
 	bholder int             // caller that holds pe.wgBarrier for the harness (-1 = nobody)
 	bch     chan string     // releases it: the value names the call the caller goes on with, without yielding
 	wret    []string        // "<caller>:<k>": a Wait of caller returned after k callback ends of this operation
@@ -159,6 +161,27 @@ func (e *c11Env) holdAt(point string) {
 			}
 			return
 		}
+	}
+	// not a caller: a background flusher inside the RemoveAll of its tick / quit Flush (`hold bg fremoved`)
+	if point == "fremoved" && strings.Contains(st, "backgroundFlush.func1") {
+		e.mu.Lock()
+		armed := e.bgArm
+		e.mu.Unlock()
+		if armed {
+			e.held.Add(1)
+			c11HoldPark(e.bgCh)
+			e.held.Add(-1)
+		}
+	}
+}
+
+func (e *c11Env) unholdBg() {
+	e.mu.Lock()
+	e.bgArm = false
+	e.mu.Unlock()
+	select {
+	case e.bgCh <- struct{}{}:
+	default:
 	}
 }
 
@@ -633,6 +656,28 @@ func c11Race(r *verifh.Rng) verifh.Section {
 	pt := r.PickS("full", "full", "removed", "removed", "notfull", "fremoved")
 	x := c11T(id, 1)
 	id++
+	if r.Chance(1, 4) {
+		// the other way round: the FLUSHER is inside the critical section of its tick Flush (past the idle bound)
+		// while the producer arrives; on release the producer's threshold Add races the flusher's quit check
+		ops = append(ops, "hold bg fremoved", "tick", fmt.Sprintf("add %d %d", w, x))
+		if r.Chance(1, 2) {
+			y := c11T(id, 1)
+			id++
+			ops = append(ops, fmt.Sprintf("add %d %d", (w+1)%p, y))
+		}
+		ops = append(ops, "unhold bg")
+		if f < 0 {
+			f = x
+		}
+		if f >= 0 {
+			open_ = append(open_, f)
+		}
+		if r.Chance(1, 2) {
+			relAll()
+		}
+		ops = append(ops, "drain")
+		return verifh.Section{Cfg: c11Cfg(kind, max, iv, p, gate, 0), Ops: ops}
+	}
 	ops = append(ops, fmt.Sprintf("hold %d %s", w, pt))
 	if pt == "fremoved" {
 		ops = append(ops, fmt.Sprintf("%s %d", r.PickS("flush", "wait"), w))
@@ -872,6 +917,10 @@ func c11Gen(r *verifh.Rng) []verifh.Section {
 						delete(armed, k)
 					}
 				}
+				if armed[p] {
+					ops = append(ops, "unhold bg")
+					delete(armed, p)
+				}
 				continue
 			}
 			x := r.Intn(100)
@@ -908,9 +957,12 @@ func c11Gen(r *verifh.Rng) []verifh.Section {
 				// force the idle-quit path: more than 10 intervals, two ticks
 				ops = append(ops, fmt.Sprintf("t+ %d", 10*iv+1), "tick", "tick")
 				bytes = 0
-			case x < 85:
+			case x < 84:
 				ops = append(ops, fmt.Sprintf("hold %d %s", w, r.PickS("full", "removed", "notfull", "fremoved")))
 				armed[w] = true
+			case x < 85:
+				ops = append(ops, "hold bg fremoved")
+				armed[p] = true
 			case x < 88:
 				ops = append(ops, fmt.Sprintf("unhold %d", w))
 				delete(armed, w)
@@ -949,7 +1001,7 @@ func TestVerifC11(t *testing.T) {
 	self := c11Goid()
 	secs := verifh.Sections(c11Gen)
 	verifh.Run(t, secs, func(cfg verifh.Cfg) (func(op []string) string, func()) {
-		e := &c11Env{gate: cfg.Int("gate", 0) == 1, pm: cfg.Int("pm", 0), bholder: -1, bch: make(chan string)}
+		e := &c11Env{gate: cfg.Int("gate", 0) == 1, pm: cfg.Int("pm", 0), bholder: -1, bch: make(chan string), bgCh: make(chan struct{})}
 		iv := time.Duration(cfg.Int("iv", 10))
 		max := cfg.Int("max", 2)
 		kind := cfg.Str("kind", "bulk")
@@ -1042,6 +1094,19 @@ func TestVerifC11(t *testing.T) {
 				}
 				return e.brel(op[1], self)
 			case "hold":
+				if op[1] == "bg" {
+					// arm the background flusher: it parks inside the RemoveAll of its next tick / quit Flush
+					if op[2] != "fremoved" {
+						return "bad-op"
+					}
+					if e.quiesce(self) == nil {
+						return e.stuck
+					}
+					e.mu.Lock()
+					e.bgArm = true
+					e.mu.Unlock()
+					return e.observe(self)
+				}
 				// arm caller w: its next pass through the named point of the critical section parks it there
 				w := verifh.Atoi(op[1])
 				if w < 0 || w >= p || !idle(w) {
@@ -1057,6 +1122,13 @@ func TestVerifC11(t *testing.T) {
 				e.mu.Unlock()
 				return e.observe(self)
 			case "unhold":
+				if op[1] == "bg" {
+					if e.quiesce(self) == nil {
+						return e.stuck
+					}
+					e.unholdBg()
+					return e.observe(self)
+				}
 				w := verifh.Atoi(op[1])
 				if w < 0 || w >= p {
 					return "skip"
@@ -1100,6 +1172,10 @@ func TestVerifC11(t *testing.T) {
 					}
 					e.unhold(w)
 				}
+				if e.quiesce(self) == nil {
+					return e.stuck
+				}
+				e.unholdBg()
 				for i := 0; i < 1000; i++ {
 					if e.quiesce(self) == nil {
 						return e.stuck
@@ -1140,6 +1216,9 @@ func TestVerifC11(t *testing.T) {
 				if e.quiesce(self) != nil {
 					e.unhold(w)
 				}
+			}
+			if !e.dead && e.quiesce(self) != nil {
+				e.unholdBg()
 			}
 			for i := 0; i < 50; i++ {
 				e.releaseAll()
